@@ -5,6 +5,9 @@ mod gen;
 mod project;
 mod lsptext;
 mod session;
+mod sched;
+mod procdrv;
+mod lifecycle;
 mod progs;
 mod reflex;
 mod soup;
@@ -159,5 +162,33 @@ mod family_tests {
         println!("{:?} total {}", by, f.len());
         let pr = print_program(&f[0].program);
         println!("{}", render_plain(&pr.toks, Layout::Pretty).text);
+    }
+}
+
+#[cfg(test)]
+mod sched_tests {
+    use crate::sched::*;
+    use crate::session::*;
+    #[test]
+    fn bounded_dfs_counts() {
+        let mut s = Session::new(true);
+        s.open(URI, "proc main() { }\n");
+        s.request("textDocument/foldingRange", doc_request_params("textDocument/foldingRange", URI));
+        s.msgs.push(request(99, "shutdown", serde_json::Value::Null));
+        s.msgs.push(notification("exit", serde_json::Value::Null));
+        let env = EnvConfig { chunks: vec![s.bytes()], feeder_task: false, clamp: None, stdout_cap: None };
+        let mut last = 0;
+        for b in 0..=2 {
+            let t = std::time::Instant::now();
+            let e = explore(&env, b);
+            println!("bound {}: executions {} decisions {} depth {} outputs {} abort {:?} in {:?}", b, e.stats.executions, e.stats.decisions, e.stats.max_depth, e.outcomes.len(), e.abort, t.elapsed());
+            assert!(e.abort.is_none());
+            assert!(e.stats.executions >= last);
+            last = e.stats.executions;
+            assert_eq!(e.outcomes.len(), 1);
+        }
+        let base = run_inproc(&s.bytes());
+        let e = explore(&env, 0);
+        assert_eq!(e.outcomes.keys().next().unwrap(), &base.raw);
     }
 }
